@@ -1,8 +1,8 @@
 (* C14 — serializer skip lists.  Model shared with C01 (model/C01_Model.v); proofs in
    proof/C14_Proofs.v on top of proof/C01_Proofs_*.v. *)
 From QV.lib Require Import Prelude.
-From QV.model Require Import C01_Model.
-From QV.proof Require Import C01_Proofs_RT C01_Proofs_Store C14_Proofs C14_Proofs_Store.
+From QV.model Require Import C01_Model C14_Hybrid_Model.
+From QV.proof Require Import C01_Proofs_RT C01_Proofs_Store C14_Proofs C14_Proofs_Store C14_Proofs_Hybrid.
 From Coq Require Import String.
 Local Open Scope string_scope.
 Local Open Scope list_scope.
@@ -141,3 +141,70 @@ Example C14_save_eq_load_needs_attr_nested :
   wf_obj v = true /\ attr_nested v = false /\
   res_eqb (load_file ["a"] [] (save_file [] [] v)) (load_file [] [] (save_file ["a"] [] v)) = false.
 Proof. vm_compute. repeat split. Qed.
+
+(* ------------------------------------------------------------------ nn.Module + AutoSerialize hybrid roots *)
+(* (model/C14_Hybrid_Model.v: parameters / buffers / sub-modules are entries of the registry dicts; the final
+   hasattr / delattr loop of _recursive_load removes them through torch's Module.__delattr__)
+
+   every well-formed hybrid graph, names and types at save time and at load time: the loaded hybrid is the pruned
+   normal form with the merged names also removed from the three registries *)
+Theorem C14_hybrid_skip_general :
+  forall usn ust sn st v, wf_obj v = true ->
+    load_file_hyb usn ust (save_file sn st v) =
+    RVal (hyb_delattr (usn ++ sn)
+            (prune_load (usn ++ sn) (ust ++ filter (fun t => negb (mem t ust)) st) (norm (prune_save sn st v)))).
+Proof. exact load_save_skip_hyb. Qed.
+Print Assumptions C14_hybrid_skip_general.
+
+(* a listed name is a key of none of the registries of the result (parameter, buffer or sub-module: absent) *)
+Theorem C14_hybrid_registry_names_absent :
+  forall sn v m c l, hyb_delattr sn v = VObj m c l ->
+    forall reg d, In (reg, VDict d) l -> mem reg hyb_regs = true -> forall n, In n (map fst d) -> mem n sn = false.
+Proof. exact hyb_registry_names_absent. Qed.
+Print Assumptions C14_hybrid_registry_names_absent.
+
+(* ... and of no attribute name hasattr can see, when the plain fields have been pruned (as load_file does) *)
+Theorem C14_hybrid_attr_names_absent :
+  forall sn m c l,
+    (forall k x, In (k, x) l -> (match x with VDict _ => mem k hyb_regs | _ => false end) = false -> mem k sn = false) ->
+    forall n, In n (hyb_attr_names (hyb_delattr sn (VObj m c l))) -> mem n sn = false.
+Proof. exact hyb_attr_names_absent. Qed.
+Print Assumptions C14_hybrid_attr_names_absent.
+
+(* every other registry entry survives, every other field is untouched, no names = no change, twice = union *)
+Theorem C14_hybrid_survivors :
+  (forall sn k d e, mem k hyb_regs = true -> In e d -> mem (fst e) sn = false ->
+     exists d', hyb_field sn (k, VDict d) = (k, VDict d') /\ In e d') /\
+  (forall sn k x, mem k hyb_regs = false -> hyb_field sn (k, x) = (k, x)) /\
+  (forall v, hyb_delattr [] v = v) /\
+  (forall A B v, hyb_delattr A (hyb_delattr B v) = hyb_delattr (B ++ A) v).
+Proof. exact (conj hyb_survivors_kept (conj hyb_field_other (conj hyb_delattr_nil hyb_delattr_app))). Qed.
+Print Assumptions C14_hybrid_survivors.
+
+(* skipping names at load time = at save time, and recorded names suffice, for hybrid roots *)
+Theorem C14_hybrid_save_eq_load :
+  forall S v, wf_obj v = true -> attr_nested v = true ->
+    load_file_hyb S [] (save_file [] [] v) = load_file_hyb [] [] (save_file S [] v).
+Proof. exact skip_save_eq_load_hyb. Qed.
+Print Assumptions C14_hybrid_save_eq_load.
+
+Theorem C14_hybrid_recorded :
+  forall sn v, wf_obj v = true ->
+    load_file_hyb [] [] (save_file sn [] v) = on_res (hyb_delattr sn) (load_file sn [] (save_file sn [] v)).
+Proof. exact skip_recorded_save_hyb. Qed.
+Print Assumptions C14_hybrid_recorded.
+
+Definition ex_hybrid : value :=
+  VObj "harness.c01_classes" "HybridNet"
+       [("training", VBool true);
+        ("_parameters", VDict [("scale", VBlob BTensor ["torch.Tensor"] [] 1); ("w0", VBlob BTensor ["torch.Tensor"] [] 2)]);
+        ("_buffers", VDict [("running", VBlob BTensor ["torch.Tensor"] [] 3)]);
+        ("_modules", VDict [("linear", VBlob BModule ["torch.nn.modules.linear.Linear"; "torch.nn.modules.module.Module"] [] 4)]);
+        ("gain", VFloat 4612811918334230528); ("child", VObj "harness.c01_classes" "NodeA" [("gain", VInt 2); ("a", VInt 1)])].
+Example C14_nonvacuous_hybrid :
+  wf_obj ex_hybrid = true /\ attr_nested ex_hybrid = true /\
+  (match load_file_hyb ["scale"] [] (save_file ["linear"; "gain"] [] ex_hybrid) with
+   | RVal v => hyb_attr_names v | _ => [] end) = ["training"; "w0"; "running"; "child"] /\
+  (match load_file ["scale"] [] (save_file ["linear"; "gain"] [] ex_hybrid) with
+   | RVal v => hyb_attr_names v | _ => [] end) = ["training"; "scale"; "w0"; "running"; "linear"; "child"].
+Proof. repeat split; vm_compute; reflexivity. Qed.
